@@ -190,6 +190,10 @@ def run(rep):
     dis = stage_w_ninja(rep, rng, n)
     stage_r_inout(rep, rng, 400 if thorough else 80)
     found = stage_oracle_ninja(rep, rng, (500 if thorough else 60) * (5 if dis else 1))
+    from . import c06
+    for i in range(12 if thorough else 2):
+        found += c06.declared_vs_delivered(rep, rng, i, 'ninja', odd_names=(i % 2 == 1))
+    rep.stage('system:configure->evaluator->dash->recorder', projects=rep.traces)
     if dis and not found:
         i, call, iv, mv = dis[0]
         rep.fail('W:%s - model and implementation disagree (%d cases), e.g. %r: impl %r, model %r' % (
